@@ -10,18 +10,21 @@
 (***************************************************************************)
 EXTENDS Naturals, Sequences, FiniteSets, RefRead, Corpus, Json, TLC
 
-CONSTANT Groups        \* number of work groups (parallelism only)
+CONSTANTS Groups,       \* number of work groups (parallelism only)
+          Big           \* TRUE: the corpus plus 500 spliced tokens (thorough tier)
+
+Tokens == IF Big THEN TokenCorpusBig ELSE TokenCorpus
 
 VARIABLES grp, tok, ctx
 vars == <<grp, tok, ctx>>
 
-NTok == Len(TokenCorpus)
+NTok == Len(Tokens)
 NCtx == Len(ContextPrefix)
 
-Input(t, c) == ContextPrefix[c] \o TokenCorpus[t] \o ContextSuffix[c]
+Input(t, c) == ContextPrefix[c] \o Tokens[t] \o ContextSuffix[c]
 
 \* bracket forms only make sense at top level and as a list element
-CtxFor(t) == IF TokenCorpus[t][1] \in {LB, LP} THEN {1, 5} ELSE 1..NCtx
+CtxFor(t) == IF Tokens[t][1] \in {LB, LP} THEN {1, 5} ELSE 1..NCtx
 
 (***************************************************************************)
 (* The option dimensions an input exercises (C08: "options an input does   *)
@@ -50,7 +53,7 @@ TokDims(tk) ==
  \cup (IF n >= 2 /\ tk[1] = HASH /\ tk[2] = PCT THEN {"racket"} ELSE {})
  \cup (IF m >= 1 /\ IsDigit(core[1]) THEN {"digits"} ELSE {})
 
-Exercised(t, c) == TokDims(TokenCorpus[t]) \cup (IF c = 6 THEN {"br"} ELSE {})
+Exercised(t, c) == TokDims(Tokens[t]) \cup (IF c = 6 THEN {"br"} ELSE {})
 
 \* projection of an option record onto a set of dimensions
 Proj(ro, ds) ==
